@@ -202,7 +202,108 @@ func newC01Must(fn *ssa.Function, k *cut, params map[*ssa.Parameter]c01Arg) *c01
 		}
 		m.nilEdges[name] = append(m.nilEdges[name], t)
 	}
+	// a size computed from the members (len(list) + 1 if subject != nil) tested against zero: on the zero edge every
+	// member that contributes is empty / nil, so nothing has to be returned for it
+	for _, i := range Ifs(fn) {
+		cond, t, f := ifEdges(i)
+		bo, ok := cond.(*ssa.BinOp)
+		if !ok {
+			continue
+		}
+		k, isK := constInt(bo.Y)
+		if !isK {
+			continue
+		}
+		var zeroE Edge
+		switch {
+		case bo.Op == token.EQL && k == 0, bo.Op == token.LEQ && k == 0, bo.Op == token.LSS && k == 1:
+			zeroE = t
+		case bo.Op == token.NEQ && k == 0, bo.Op == token.GTR && k == 0, bo.Op == token.GEQ && k == 1:
+			zeroE = f
+		default:
+			continue
+		}
+		if b, isInt := bo.X.Type().Underlying().(*types.Basic); !isInt || b.Info()&types.IsInteger == 0 {
+			continue
+		}
+		if names, can := m.zeroImplies(bo.X, 0); can {
+			for n := range names {
+				m.nilEdges[n] = append(m.nilEdges[n], zeroE)
+			}
+		}
+	}
 	return m
+}
+
+// zeroImplies: the members that are certainly empty / nil when the integer v (a size built from lengths) is zero;
+// can == false when v cannot be zero at all (len + positive constant).
+func (m *c01Must) zeroImplies(v ssa.Value, depth int) (names map[string]bool, can bool) {
+	names = map[string]bool{}
+	if depth > 6 {
+		return names, true
+	}
+	switch u := v.(type) {
+	case *ssa.Const:
+		k, _ := constInt(u)
+		return names, k == 0
+	case *ssa.Call:
+		if CalleeName(u) == "builtin:len" {
+			st := m.must(u.Call.Args[0])
+			for n := range st.m {
+				names[n] = true
+			}
+		}
+		return names, true
+	case *ssa.BinOp:
+		if u.Op != token.ADD {
+			return names, true
+		}
+		a, ca := m.zeroImplies(u.X, depth+1)
+		b, cb := m.zeroImplies(u.Y, depth+1)
+		if kx, isK := constInt(u.X); isK && kx > 0 {
+			return names, false
+		}
+		if ky, isK := constInt(u.Y); isK && ky > 0 {
+			return names, false
+		}
+		if !ca || !cb {
+			return names, false
+		}
+		for n := range a {
+			names[n] = true
+		}
+		for n := range b {
+			names[n] = true
+		}
+		return names, true
+	case *ssa.Phi:
+		first := true
+		any := false
+		for i, ev := range u.Edges {
+			alt, c := m.zeroImplies(ev, depth+1)
+			if !c {
+				continue // this alternative is never zero
+			}
+			any = true
+			e := Edge{u.Block().Preds[i], u.Block()}
+			for f, ne := range m.nilEdges {
+				if c01MustPassEdge(e, newCut().Edges(ne...)) {
+					alt[f] = true
+				}
+			}
+			if first {
+				names, first = alt, false
+			} else {
+				for n := range names {
+					if !alt[n] {
+						delete(names, n)
+					}
+				}
+			}
+		}
+		return names, any
+	}
+	return names, true
 }
 
 func (m *c01Must) leaf(v ssa.Value) (c01Set, bool) {
